@@ -311,6 +311,55 @@ async def script(loop, ctx):
                 elif not esc and r.status == "OK":
                     counts["harmless_accepted"] += 1
                 cases.append(Case.make(cid, HELD, spec=ctx["spec"], nontrivial=esc, key=key, sample=sample))
+        # ---- what a RENAME that failed half-way leaves behind.  The user's own folders are named like the neighbour's
+        # path (plain names, nothing a name check could object to); an inferior's directory has disappeared behind the
+        # server's back, so RENAME gives up after its first steps; later RENAMEs move whatever it left to other levels of
+        # the tree.  Whatever those names are then used for, nothing outside the mail root may be read or written.
+        import shutil
+
+        if s.writer.closed or s.wire_error:
+            s = rig.session("E")
+        neighbour = os.path.basename(decoy)
+        for c_ in (f"CREATE {neighbour}", f"CREATE {neighbour}/inbox", f"CREATE {neighbour}/inbox/kid", f"CREATE {neighbour}/sekrit", f"CREATE {neighbour}/sekrit/kid", "CREATE tmp", "CREATE tmp/deep"):
+            await s.cmd(c_)
+        for victim in ("inbox", "sekrit"):
+            shutil.rmtree(os.path.join(root, neighbour, victim, "kid"), ignore_errors=True)
+        snap = snapshot(jail, root)
+        _MON["events"].clear()
+        steps = [f"RENAME {neighbour}/inbox tmp/inbox", "RENAME tmp/inbox z1", f"RENAME {neighbour}/sekrit tmp/deep/sekrit", "RENAME tmp/deep/sekrit tmp/z2", "RENAME tmp/z2 z3", "RENAME tmp z4"]
+        uses = []
+        for nm_ in ("z1", "z3", "tmp/inbox", "tmp/z2", "tmp/deep/sekrit", "z4/inbox", "z4/z2", "z4/deep/sekrit"):
+            uses += [f"STATUS {nm_} (MESSAGES UNSEEN)", f"SELECT {nm_}", "FETCH 1:* (FLAGS BODY.PEEK[])", "STORE 1 +FLAGS (\\Deleted)", "EXPUNGE", f"APPEND {nm_} {{3+}}\r\nx\r\n", "UNSELECT", f"DELETE {nm_}"]
+        uses += ['LIST "" *', 'LSUB "" *']
+        leftovers = 0
+        for cmd in steps + uses:
+            if s.writer.closed or s.wire_error:
+                s = rig.session("E")
+            r = await s.cmd(cmd)
+            await rig.settle()
+            s.pump()
+            counts["leftover_link_commands"] += 1
+            problems = []
+            if _MON["events"]:
+                problems.append(("outside-path-touched", f"{cmd}: {_MON['events'][:4]}"))
+                _MON["events"].clear()
+            after = snapshot(jail, root)
+            _MON["events"].clear()  # (the snapshot's own reads)
+            if after != snap:
+                diff = sorted(set(after.items()) ^ set(snap.items()))[:4]
+                problems.append(("outside-tree-changed", f"{cmd}: {[d[0] for d in diff]}"))
+                snap = after
+            raw = (r.raw or b"").replace(neighbour.encode(), b"<OWN>")
+            if re.search(rb"CANARY|sekrit/deeper", raw):
+                problems.append(("leak-in-response", f"{cmd}: {raw[:200]!r}"))
+            if problems:
+                cases.append(Case.make(f"s{k}.leftover", VIOLATED, spec=ctx["spec"], nontrivial=True, key=common.h(["leftover", cmd]), sample={"position": "leftover-link", "name": cmd, "encoding": "atom", "reply": r.status},
+                                       witness={"kind": problems[0][0], "detail": problems[0][1], "all": [p[0] for p in problems], "position": "leftover-link", "name": cmd, "encoding": "atom", "reply": r.brief(),
+                                                "transcript": s.log[-8:], "server_log": [x[2][:200] for x in rig.log_records[-4:]]}))
+                break
+        for dp, dns, fns in os.walk(root):
+            leftovers += sum(1 for x in dns + fns if os.path.islink(os.path.join(dp, x)))
+        counts["leftover_links_found_in_the_mail_root"] += leftovers
         counts["audit_events_seen"] += _MON["count"]
     finally:
         try:
